@@ -359,7 +359,26 @@ fn exec_sched(sc: &Scenario) -> Report {
             }
         }
         let mut handles = vec![];
+        // share_by_ref: all threads use ONE never-cloned handle through an Arc<ProgressBar>
+        // (ProgressBar is Sync); otherwise every thread gets its own clone
+        let by_ref = sc.c("share_by_ref") == 1 && sc.c("ticker_ms") == 0;
+        let shared: Option<Arc<ProgressBar>> = if by_ref { Some(Arc::new(mk_bar(&sc, &term))) } else { None };
+        let pb = match &shared {
+            Some(_) => pb,
+            None => pb,
+        };
         for (ti, ops) in sc.threads.iter().enumerate().skip(1) {
+            if let Some(sh) = &shared {
+                let sh = sh.clone();
+                let ops = ops.clone();
+                let started = started.clone();
+                let completed = completed.clone();
+                let violations = violations.clone();
+                handles.push(verif_simrt::thread::spawn_named("user", move || {
+                    run_thread_ops(&sh, &ops, &started, &completed, monotone, &violations, ti);
+                }));
+                continue;
+            }
             // every thread gets its own clone (odd threads: a clone of a clone)
             let h = if ti % 2 == 1 { pb.clone().clone() } else { pb.clone() };
             let ops = ops.clone();
@@ -372,7 +391,10 @@ fn exec_sched(sc: &Scenario) -> Report {
             }));
         }
         let ops0 = sc.threads.first().cloned().unwrap_or_default();
-        run_thread_ops(&pb, &ops0, &started, &completed, monotone, &violations, 0);
+        match &shared {
+            Some(sh) => run_thread_ops(sh, &ops0, &started, &completed, monotone, &violations, 0),
+            None => run_thread_ops(&pb, &ops0, &started, &completed, monotone, &violations, 0),
+        }
         for h in handles {
             if let Err(p) = h.join() {
                 r.violate(
@@ -381,7 +403,10 @@ fn exec_sched(sc: &Scenario) -> Report {
                 );
             }
         }
-        let fin = pb.position();
+        let fin = match &shared {
+            Some(sh) => sh.position(),
+            None => pb.position(),
+        };
         if fin != expected {
             r.violate(
                 "C07.lost_update",
@@ -554,6 +579,7 @@ impl Check for C07 {
             sc.set("len_known", 1);
             sc.set("len0", 1000);
             sc.set("ticker_ms", *rng.pick(&[0, 0, 1, 50]));
+            sc.set("share_by_ref", rng.chance(1, 3) as u64);
             let nt = match tier {
                 Tier::Quick => rng.range(2, 5),
                 Tier::Thorough => rng.range(2, 8),
